@@ -57,10 +57,22 @@ Record load_obs := mkLO {
   lo_max : obs Z; lo_max_f : obs Z;
   lo_target : obs Z }.
 
+Record biggrid_obs := mkBG {
+  bg_rows : obs (list (list Z));         (* Topology::neighbors(&grid, v) for every v, as offsets u - v *)
+  bg_cut : obs Z; bg_lam : obs Z;
+  bg_csr_cut : obs Z; bg_csr_lam : obs Z;
+  bg_gen_cut : obs Z; bg_gen_lam : obs Z;
+  bg_cut_f : obs Z }.
+
 Inductive case16 :=
 | CGraph (g : graph) (p : list nat) (vw : list Z) (o : graph_obs)
 | CGrid (dims : list nat) (lat : graph) (p : list nat) (vw : list Z) (o : grid_obs)
-| CLoad (depth : nat) (k : nat) (p : list nat) (ws : list Z) (targets : list Z) (o : load_obs).
+| CLoad (depth : nat) (k : nat) (p : list nat) (ws : list Z) (targets : list Z) (o : load_obs)
+(* LARGE cases (thousands of vertices, around rayon / block boundaries).  Rows are
+   sent as (signed offset from the row's own index, weight) so that the unary
+   neighbour indices built in Coq share their representation with [seq]. *)
+| CBigGraph (offs : list (list (Z * Z))) (p : list nat) (vw : list Z) (o : graph_obs)
+| CBigGrid (dims : list nat) (offs : list (list (Z * Z))) (p : list nat) (vw : list Z) (o : biggrid_obs).
 
 (* a balanced split tree of the given depth (rayon halves the index range) *)
 Fixpoint balanced (d n : nat) : split :=
@@ -109,6 +121,46 @@ Definition lattice_graphb (dims : list nat) (lat : graph) : bool :=
   && forallb (fun u => forallb (fun v =>
        weight lat u v =? (if adjacent_pos (position_of dims u) (position_of dims v) then 1 else 0))
        (seq 0 n)) (seq 0 n).
+
+(* ---- large cases ---- *)
+
+(* offset rows -> rows.  [k + v] (recursion on the small k) and [v - k] (a
+   sub-term of v) keep the unary indices shared with the [seq] spine. *)
+Definition rows_of_offsets (offs : list (list (Z * Z))) : graph :=
+  map (fun vr : nat * list (Z * Z) =>
+         map (fun dw : Z * Z =>
+                (if fst dw <? 0 then (fst vr - Z.to_nat (- fst dw))%nat
+                 else (Z.to_nat (fst dw) + fst vr)%nat, snd dw)) (snd vr))
+      (combine (seq 0 (length offs)) offs).
+(* no negative offset reaches below vertex 0 (truncated subtraction would hide it) *)
+Definition offsets_ok (offs : list (list (Z * Z))) : bool :=
+  forallb (fun vr : nat * list (Z * Z) =>
+             forallb (fun dw : Z * Z => (0 <=? fst dw) || Nat.leb (Z.to_nat (- fst dw)) (fst vr)) (snd vr))
+          (combine (seq 0 (length offs)) offs).
+
+Definition zrows_eqb := list_eqb (list_eqb Z.eqb).
+
+(* strides 1, s0, s0*s1, ... of the row-major index *)
+Fixpoint strides (acc : nat) (dims : list nat) : list nat :=
+  match dims with [] => [] | s :: t => acc :: strides (acc * s) t end.
+(* per axis (stride, coordinate of v, size) *)
+Definition axes_of (dims : list nat) (v : nat) : list (nat * (nat * nat)) :=
+  map (fun ss : nat * nat => (fst ss, (((v / fst ss) mod snd ss)%nat, snd ss)))
+      (combine (strides 1 dims) dims).
+(* GridNeighbors order: axis by axis, -stride when the coordinate is not 0, then
+   +stride when it is not the last (the closed form proved in MetricsGridProofs:
+   grid_neighbors_2d / _3d) *)
+Definition grid_offsets_iter (dims : list nat) (v : nat) : list Z :=
+  flat_map (fun a : nat * (nat * nat) =>
+              let st := Z.of_nat (fst a) in let c := fst (snd a) in let s := snd (snd a) in
+              (if Nat.eqb c 0 then [] else [- st]) ++ (if Nat.ltb (c + 1) s then [st] else []))
+           (axes_of dims v).
+(* the lattice as a valid sparse matrix: ascending indices *)
+Definition grid_offsets_sorted (dims : list nat) (v : nat) : list Z :=
+  let ax := axes_of dims v in
+  flat_map (fun a : nat * (nat * nat) => if Nat.eqb (fst (snd a)) 0 then [] else [- Z.of_nat (fst a)]) (rev ax)
+  ++ flat_map (fun a : nat * (nat * nat) =>
+                 if Nat.ltb (fst (snd a) + 1) (snd (snd a)) then [Z.of_nat (fst a)] else []) ax.
 
 Definition eval16 (c : case16) : verdict :=
   match c with
@@ -194,6 +246,78 @@ Definition eval16 (c : case16) : verdict :=
               else true]
       else true in
     {| corr_ok := corr; prop_ok := prop; cls := if in_contract then 5 else 6 |}
+  | CBigGraph offs p vw o =>
+    (* matrices built with CsMat::new: must be valid.  The definition is evaluated through
+       the generic model, which IS the definition by C16_cut_lower_def / C16_cut_def /
+       C16_lambda_cut_def (cut_lower itself is quadratic in n). *)
+    let g := rows_of_offsets offs in
+    let n := length g in
+    let ok := offsets_ok offs && wf_graphb g && rows_sortedb true g in
+    let mc := edge_cut g p in
+    let ms := sprs_edge_cut g p in
+    let ml := lambda_cut g p vw in
+    let corr := ok && andl [
+      obs_corr Z.eqb ms (go_csr_cut o); obs_corr Z.eqb mc (go_gen_cut o);
+      obs_corr Z.eqb ml (go_csr_lam o); obs_corr Z.eqb ml (go_gen_lam o);
+      obs_corr Z.eqb ms (go_csr_cut_f o); obs_corr Z.eqb mc (go_gen_cut_f o);
+      obs_corr Z.eqb ml (go_csr_lam_f o); obs_corr Z.eqb ml (go_gen_lam_f o)] in
+    let in_contract := ok && Nat.leb n (length p) && Nat.eqb (length vw) n in
+    let prop :=
+      if in_contract then
+        match mc, ml with
+        | Ok d, Ok l =>
+          andl [obs_is Z.eqb d (go_csr_cut o); obs_is Z.eqb d (go_gen_cut o);
+                obs_is Z.eqb d (go_csr_cut_f o); obs_is Z.eqb d (go_gen_cut_f o);
+                obs_is Z.eqb l (go_csr_lam o); obs_is Z.eqb l (go_gen_lam o);
+                obs_is Z.eqb l (go_csr_lam_f o); obs_is Z.eqb l (go_gen_lam_f o)]
+        | _, _ => false
+        end
+      else true in
+    {| corr_ok := corr; prop_ok := prop; cls := 10 |}
+  | CBigGrid dims offs p vw o =>
+    (* Grid with thousands of cells.  [offs] must be exactly the lattice (ascending
+       closed form); the Grid's own neighbour lists must be the iterator's closed form;
+       all cuts must equal the generic model on the lattice matrix (= lattice cut by
+       C16_cut_def and C16_grid_cut_is_lattice_cut). *)
+    let n := grid_len dims in
+    let vs := seq 0 n in
+    let g := rows_of_offsets offs in
+    let ok := Nat.eqb (length offs) n && forallb (fun s => Nat.ltb 0 s) dims
+              && zrows_eqb (map (fun r : list (Z * Z) => map fst r) offs) (map (grid_offsets_sorted dims) vs)
+              && forallb (forallb (fun dw : Z * Z => snd dw =? 1)) offs in
+    let mc := edge_cut g p in
+    let ml := lambda_cut g p vw in
+    let corr := ok && andl [
+      obs_corr zrows_eqb (Ok (map (grid_offsets_iter dims) vs)) (bg_rows o);
+      obs_corr Z.eqb mc (bg_cut o); obs_corr Z.eqb ml (bg_lam o);
+      obs_corr Z.eqb (sprs_edge_cut g p) (bg_csr_cut o); obs_corr Z.eqb ml (bg_csr_lam o);
+      obs_corr Z.eqb mc (bg_gen_cut o); obs_corr Z.eqb ml (bg_gen_lam o);
+      obs_corr Z.eqb mc (bg_cut_f o)] in
+    let in_contract := ok && Nat.leb n (length p) && Nat.eqb (length vw) n in
+    let prop :=
+      if in_contract then
+        match mc, ml with
+        | Ok d, Ok l =>
+          andl [obs_is Z.eqb d (bg_cut o); obs_is Z.eqb d (bg_csr_cut o); obs_is Z.eqb d (bg_gen_cut o);
+                obs_is Z.eqb d (bg_cut_f o);
+                obs_is Z.eqb l (bg_lam o); obs_is Z.eqb l (bg_csr_lam o); obs_is Z.eqb l (bg_gen_lam o)]
+        | _, _ => false
+        end
+      else true in
+    {| corr_ok := corr; prop_ok := prop; cls := 11 |}
   end.
 
 Definition run16 (cs : list case16) := report (map eval16 cs).
+
+(* sanity of the closed forms used for the large grids, against the model's iterator
+   (the general statement is grid_neighbors_2d / _3d in Proofs/MetricsGridProofs.v) *)
+Example big_grid_closed_forms :
+  forallb (fun dims : list nat =>
+    let n := grid_len dims in
+    list_eqb (list_eqb Z.eqb)
+      (map (fun v => map (fun u => Z.of_nat u - Z.of_nat v) (grid_neighbors dims v)) (seq 0 n))
+      (map (grid_offsets_iter dims) (seq 0 n))
+    && lattice_graphb dims (rows_of_offsets
+         (map (fun v => map (fun d => (d, 1)) (grid_offsets_sorted dims v)) (seq 0 n))))
+    [[3; 4]; [1; 5]; [5; 1]; [2; 3; 2]; [3; 1; 2]; [1; 1; 4]; [4; 3; 3]]%nat = true.
+Proof. vm_compute. reflexivity. Qed.
